@@ -14,10 +14,14 @@
         then forces every compressed level to store nothing), and soundness for values: wherever the
         value semantics over Z is non-zero there is support, so the support never forbids an entry
         that is needed.
+      - the mechanism: on a model of _exhaust_tensor.py and of the terminal's guard
+        ([expression != Integer(0)]), flags are raised only where the original expression has
+        boolean support with exactly the non-exhausted tensor occurrences present
+        (C03_guard_sound), and exhausting a factor of a product keeps them down.
     What is NOT proved: that the generated kernels store only supported coordinates -- that is the
     sweep of tools/props/C03.py, which evaluates [no_phantomb] in Coq on the real outputs. *)
 From Coq Require Import ZArith List Bool String. Import ListNotations.
-From TV Require Import spec.Storage spec.Support proofs.SupportProofs.
+From TV Require Import spec.Storage spec.Support proofs.SupportProofs model.ExhaustGuard proofs.SupportExhaust.
 Open Scope Z_scope.
 
 (** The checker run on every swept output: it returns true iff every level-order prefix stored by
@@ -91,3 +95,21 @@ Theorem C03_support_sound_for_values : forall a vins sizes c,
   value a vins sizes c <> 0 -> supportb a (fun n => List.map fst (vins n)) sizes c = true.
 Proof. exact support_sound_for_values. Qed.
 Print Assumptions C03_support_sound_for_values.
+
+(** The written-flag guard (model/ExhaustGuard.v: exhaust_tensor with Python's identity
+    short-circuit, the terminal's test [expression != Integer(0)]): after exhausting ANY list of
+    tensor occurrences in ANY order, the flags are raised only if the original (source) expression
+    has boolean support when exactly the non-exhausted occurrences are present (literals present). *)
+Theorem C03_guard_sound : forall (refs : list string) (e : iexpr),
+  zfree e = true ->
+  raises_flags (exhaust_all refs e) = true ->
+  isupp (fun id => negb (mem_id id refs)) e = true.
+Proof. exact guard_sound. Qed.
+Print Assumptions C03_guard_sound.
+
+(** Exhausting a factor of a product keeps the flags down, whatever the other factor is. *)
+Theorem C03_guard_kills_product : forall ref e,
+  raises_flags (fst (exhaust ref (IMul (ITen ref) e))) = false
+  /\ raises_flags (fst (exhaust ref (IMul e (ITen ref)))) = false.
+Proof. exact exhaust_kills_product. Qed.
+Print Assumptions C03_guard_kills_product.
